@@ -18,7 +18,10 @@ CHECK = {
         {"fn": P + "vC43_producer", "replay": "model-only", "opts": {"feasibility": True, "unwind": 8}},
         {"fn": P + "vC43_consumer", "replay": "model-only", "cases_quick": {"kind": [0, 1, 2, 3, 4], "bufLen": [0, 1, 2, 3], "spareCap": [1], "seqBits": [61]},
          "cases_thorough": {"kind": [0, 1, 2, 3, 4], "bufLen": [0, 1, 2, 3, 4], "spareCap": [0, 1], "seqBits": [61]},
-         "cover_optional": ("demand-granted", "buffered", "buffer-full")},
+         "cover_optional": ("demand-granted", "buffered", "buffer-full"),
+         # with a full buffer / in message kinds that never grant demand the grant assertion has no instance
+         "may_be_unreachable": ("demand is only ever granted as confirmedSeq+window", "every Request grants exactly confirmedSeq+window",
+                                "a Request carries the current confirmation watermark")},
     ],
     "opts": {"unwind": 8, "substitute": SUB, "feasibility": False, "batch_fresh": True, "reach_fresh": True, "equalfold_ascii": True},
     "stop": [k for k in SUB.keys() if k.startswith("(*" + P)],
